@@ -2052,7 +2052,7 @@ impl LineBuf {
 		let cursor_pos = self.cursor.get();
 		self.slice(start..cursor_pos)
 			.map(|s| s.graphemes(true).map(|g| g.width()).sum())
-			.unwrap_or(cursor_pos - start)
+			.unwrap_or_else(|| cursor_pos.saturating_sub(start))
 	}
 	pub fn index_col(&self, pos: usize) -> usize {
 		let pos_line = self.index_line_number(pos);
